@@ -865,27 +865,27 @@ Record wfb (G : graph) : Prop := {
   fb_range : forall g, In g (gorder G) -> g < gnn G;
   fb_outs_prod : forall o, In o (gouts G) -> exists g, In g (gorder G) /\ nO (gn G g) = o }.
 
-Lemma wfg_avail G : wfg G ->
+Lemma wfg0_avail G : wfg0 G ->
   forall l1 l2, gorder G = l1 ++ l2 -> forall g, In g l1 -> avail G (nO (gn G g)).
 Proof.
   intros WF l1. induction l1 as [|a l IH] using rev_ind; intros l2 Ho g Hg; [destruct Hg|].
   rewrite <- app_assoc in Ho. simpl in Ho.
   apply in_app_or in Hg. destruct Hg as [Hg|[<-|[]]].
   - eapply IH; eauto.
-  - destruct (wf_topo _ WF l a l2 Ho) as (Tin & _ & _).
+  - destruct (w0_topo _ WF l a l2 Ho) as (Tin & _ & _).
     apply av_gate.
     + split; [rewrite Ho; apply in_or_app; right; now left|].
-      apply (wf_nodead _ WF). rewrite Ho. apply in_or_app. right. now left.
+      apply (w0_nodead _ WF). rewrite Ho. apply in_or_app. right. now left.
     + intros w Hw. destruct (Tin w Hw) as [H|(p & Hp & <-)]; [now apply av_in|].
       eapply IH; eauto.
 Qed.
 
-Theorem fresh_cwf G : wfg G -> wfb G -> cwf G.
+Theorem fresh_cwf0 G : wfg0 G -> wfb G -> cwf G.
 Proof.
   intros WF FB. constructor.
   - apply (fb_fresh _ FB).
   - apply (fb_unvis _ FB).
-  - apply (wf_nodup_ins _ WF).
+  - apply (w0_nodup_ins _ WF).
   - apply (fb_ins_flag _ FB).
   - apply (fb_outs_nodup _ FB).
   - apply (fb_outs_flag _ FB).
@@ -893,22 +893,29 @@ Proof.
   - intros w c Hc _. eapply (fb_entries _ FB); eauto.
   - intros g [Lg _]. now apply (fb_noconsume _ FB).
   - intros g [Lg _]. destruct (in_split _ _ Lg) as (l1 & l2 & E).
-    apply (wf_topo _ WF l1 g l2 E).
+    apply (w0_topo _ WF l1 g l2 E).
   - intros g1 g2 [L1 _] [L2 _] E.
     destruct (Nat.eq_dec g1 g2) as [|Hne]; auto. exfalso.
     destruct (in_split _ _ L1) as (l1 & l2 & E1).
     rewrite E1 in L2. apply in_app_or in L2. destruct L2 as [L2|[L2|L2]].
-    + destruct (wf_topo _ WF l1 g1 l2 E1) as (_ & _ & D). apply (D g2 L2). now symmetry.
+    + destruct (w0_topo _ WF l1 g1 l2 E1) as (_ & _ & D). apply (D g2 L2). now symmetry.
     + congruence.
     + destruct (in_split _ _ L2) as (a & b & E2).
       assert (Hs : gorder G = (l1 ++ g1 :: a) ++ g2 :: b).
       { rewrite E1, E2, <- app_assoc. reflexivity. }
-      destruct (wf_topo _ WF _ _ _ Hs) as (_ & _ & D). apply (D g1); auto.
+      destruct (w0_topo _ WF _ _ _ Hs) as (_ & _ & D). apply (D g1); auto.
       apply in_or_app. right. now left.
   - apply (fb_range _ FB).
   - intros o Ho. destruct (fb_outs_prod _ FB o Ho) as (g & Hg & <-).
-    apply (wfg_avail G WF (gorder G) []); auto. now rewrite app_nil_r.
+    apply (wfg0_avail G WF (gorder G) []); auto. now rewrite app_nil_r.
 Qed.
+
+Lemma wfg_avail G : wfg G ->
+  forall l1 l2, gorder G = l1 ++ l2 -> forall g, In g l1 -> avail G (nO (gn G g)).
+Proof. intros WF. apply wfg0_avail. now apply wfg_wfg0. Qed.
+
+Theorem fresh_cwf G : wfg G -> wfb G -> cwf G.
+Proof. intros WF. apply fresh_cwf0. now apply wfg_wfg0. Qed.
 
 (* Compile alone, on every freshly built graph: the circuit computes the
    graph's meaning for both targets *)
